@@ -8,7 +8,7 @@ SEQ_NOTE = ("Trusted base: the Go runtime, the harness (monitored runner mimicki
             "hooks H1/H2 (build tag verif) only shorten the poll pause / report events. Held on the executions described in the evidence file, not 'verified'.")
 
 CHECKS = {
-    "C01": dict(level="exploration", tech="runtime monitoring: sequential conformance histories vs executable admission model at logical quiescence + offline interval checker over the event log (+ porcupine/stress in thorough)",
+    "C01": dict(level="exploration", tech="runtime monitoring: sequential conformance histories vs executable admission model at logical quiescence + offline interval checker over the event log; concurrent stress histories with snapshot invariant and porcupine linearizability check of the recorded API history",
                 text="Every generated history (all admission classes, unstartable jobs, slow-to-stop tasks, cancels, delay expiry) is executed on the real runner; the executing set after every operation, every task interval [run-enter, run-exit] and every reported job span are checked against the concurrency limit and the model.", ref="4 C01"),
     "C02": dict(level="exploration", tech="runtime monitoring: per-(job,task) exactly-once counter and dependency-order checker over the runner event log + task-level simulation compared after every step; all 543 labelled 4-node DAGs in thorough",
                 text="Random and hand-picked graph shapes with permuted names (so that the topological sort is the only protection against false cycles), cyclic variants and reserved-variable jobs queued among ordinary jobs; every completion order is driver-chosen through task gates.", ref="4 C02"),
@@ -16,9 +16,9 @@ CHECKS = {
                 text="Liveness restated as bounded progress at logical instants (no wall clock): no stranded job at quiescence, all jobs terminal after drain; histories biased to cancels of waiting jobs, delays, unstartable heads.", ref="4 C03"),
     "C04": dict(level="exploration", tech="runtime monitoring: directed sweep over cancel instants using hook H1 to park the scheduler loop at every iteration boundary (delivery observed via runner Cancel events), monitored and REAL task runner; offline per-cancel oracle over the event log",
                 text="8 cancel variants x 9 graph shapes x boundaries 0..6, each with observed (not assumed) delivery; real TaskRunner repeats with marker files; cancel-heavy conformance histories with slow-to-stop tasks add the surrounding states.", ref="4 C04"),
-    "C05": dict(level="exploration", tech="runtime monitoring: one-step conformance of every schedule request against the admission decision table, snapshot invariants on waiting counts",
+    "C05": dict(level="exploration", tech="runtime monitoring: one-step conformance of every schedule request against the admission decision table, snapshot invariants on waiting counts; porcupine linearizability check of recorded concurrent histories against the sequential admission model",
                 text="All 84 admission classes appear in every tier; each request's result class, victim, post-state and 'no trace' are compared with the table given the observed pre-state.", ref="4 C05"),
-    "C06": dict(level="exploration", tech="runtime monitoring: FIFO oracle over recorded Created/Start of all jobs + waiting-list equality with the model after every step",
+    "C06": dict(level="exploration", tech="runtime monitoring: FIFO oracle over recorded Created/Start of all jobs (sequential and concurrent histories) + waiting-list equality with the model after every step",
                 text="Histories with up to ~15 waiting jobs, cancels in the middle of the queue, unstartable heads, concurrency 1-3.", ref="4 C06"),
     "C07": dict(level="exploration", tech="runtime monitoring with REAL timers: monotonic timestamp arithmetic (lower bound), logical quiescence after observed delay-handler return (hook H2) for 'no additional delay', replaced-never-runs / newest-runs oracles over the event log",
                 text="Bursts of 1-8 requests with gaps around the delay, busy and idle pipelines, cancels inside the burst, 4-client stress bursts; plus logically fired delays in conformance histories.", ref="4 C07"),
